@@ -468,6 +468,7 @@ func (t *baseTree) matchSubtree(path, segment string, next int, params Params, h
 }
 
 func (t *baseTree) matchNextSegment(path string, next int, params Params, header http.Header) (Leaf, bool) {
+	simYield(6)
 	i := strings.Index(path[next:], "/")
 	if i == -1 {
 		return t.matchLeaf(path[next:], params, header)
